@@ -1,6 +1,8 @@
 (* C13 (group B): importers revolut2, revolut, wise, swissquote, interactivebrokers.
    input  = "<flags> | <hex file> | <items>"   (see harness/c13b.go)
    model  = the importer model run on the items (the records Go's reader delivered)
+            (csv-records: for the importers with a plain csv reader the items are also derived from the statement's
+             bytes <hex file> with the extracted reader model Model/Csv.v, Model/CsvImp.v, and must be the same)
    spec   = evaluated on the binary's output by the observer (it needs `knut print`), which
             appends " | print=... | rows=..." to the observation; here that is turned into
             the verdict (as in drv_c13a.ml).  The statement-level specification
